@@ -391,6 +391,8 @@ def french():
                        ("milliardième", "milliard", "1000000000ème")]:
         add(cw, k, "", exp, k)
 
+    add("et", "et", "", None, "`et` links a round ten to un / onze; after a ten said with dix (10, 70, 90) it ends the number")
+
     def lemma_of(w):
         return w.rstrip("s") if (w.endswith("s") and w != "trois") else w
 
@@ -426,6 +428,8 @@ def french():
             return f"fr_row_teen({ord(r['digits'][1])}u8, {k}, {63 if r['digits'] == '10' else 0}, o, fr_model({W(r['word'])}, o))"
         if kind == "vingt":
             return f"fr_row_vingt({k}, o, fr_model({W(r['word'])}, o))"
+        if kind == "et":
+            return f"fr_row_et(o, fr_model({W(r['word'])}, o))"
         return f"fr_row_scale({ {'cent': 2, 'mille': 3, 'million': 6, 'milliard': 9}[kind] }, {k}, o, fr_model({W(r['word'])}, o))"
     extra = ["trois", "ème", "èmes", "ier", "iers", "ière", "ières", "er", "ers", "ère", "ères", "virgule", "neuf", "un", "le", "du", "l'", "numéro", "-", ""]
     allwords = set(w for ws, _, _ in arms for w in ws) | set(r["word"] for r in rows) | set(lemma_of(r["word"]) for r in rows) | set(extra)
